@@ -16,6 +16,8 @@ pub mod sylt_parser {
     use super::common::*;
     type Alias = Identifier;
 //@ include common/parser_ast.tpl
+//@ type sylt-parser/src/parser.rs struct Module eq=none
+//@ type sylt-parser/src/parser.rs struct AST eq=none
     pub mod expression { pub use super::{CaseBranch, IfBranch, ComparisonKind}; }
 }
 
@@ -27,6 +29,7 @@ pub mod name_resolution {
         expression::CaseBranch as ParserCaseBranch, expression::IfBranch as ParserIfBranch,
         Assignable as ParserAssignable, Expression as ParserExpression,
         Statement as ParserStatement, Type as ParserType, TypeAssignable as ParserTypeAssignable,
+        AST as ParserAST,
     };
 //@ include common/resolved_ast.tpl
 //@ type sylt-compiler/src/name_resolution.rs type ResolveResult
@@ -228,6 +231,39 @@ impl Resolver {
 //@ fn sylt-compiler/src/name_resolution.rs find_similar_name
 //@   in Resolver
 //@   mode assumed
+//@ end
+//@ fn sylt-compiler/src/name_resolution.rs new
+//@   in Resolver
+//@   mode assumed
+//@   ret r
+//@   spec
+        // assumed: a new resolver has an empty scope stack, no variables and empty global tables
+        ensures r.stack@.len() == 0, r.variables@.len() == 0, r.inv(),
+//@   endspec
+//@ end
+//@ fn sylt-compiler/src/name_resolution.rs insert_namespace_and_add_definitions
+//@   in Resolver
+//@   mode assumed
+//@   ret r
+//@   spec
+        // assumed: the global pass only appends variables, registers ids of variables it created, and
+        // never touches the scope stack
+        requires old(self).inv(),
+        ensures final(self).inv(), final(self).stack@ == old(self).stack@, is_prefix(old(self).variables@, final(self).variables@),
+            r is Err ==> r->Err_0.len() >= 1,
+//@   endspec
+//@ end
+//@ fn sylt-compiler/src/name_resolution.rs resolve_global_variables
+//@   in Resolver
+//@   mode assumed
+//@   ret r
+//@   spec
+        // assumed: the import pass copies entries between the global tables, creates no variable and never
+        // touches the scope stack
+        requires old(self).inv(),
+        ensures final(self).inv(), final(self).stack@ == old(self).stack@, final(self).variables@ == old(self).variables@,
+            r is Err ==> r->Err_0.len() >= 1,
+//@   endspec
 //@ end
 //@ fn sylt-compiler/src/name_resolution.rs add_help_no_span
 //@   in Resolver
@@ -794,6 +830,87 @@ impl Resolver {
 //@   endghost
 //@ end
 }
+
+// ---- the entry point of the phase: every module statement goes through Resolver::statement at the top
+// level (empty scope stack), and what comes out is what TypeChecker::solve requires (os_ok) ------------
+/// a top-level parser statement: what sylt_parser's outer_statement can return
+pub open spec fn top_kind(s: ParserStatement) -> bool {
+    s.kind is Blob || s.kind is Enum || s.kind is Definition || s.kind is ExternalDefinition
+        || s.kind is Use || s.kind is FromUse || s.kind is EmptyStatement
+}
+pub open spec fn module_ok(m: sylt_parser::Module) -> bool {
+    forall|j: int| 0 <= j < m.statements@.len() ==> sylt_parser::ps_shape(#[trigger] m.statements@[j]) && top_kind(m.statements@[j])
+}
+/// os_ok for every table size from n on (the variable table only grows while the modules are resolved)
+pub open spec fn os_up(s: Statement, n: int) -> bool { forall|m: int| m >= n ==> #[trigger] os_ok(s, m) }
+pub open spec fn all_os_up(ss: Seq<Statement>, n: int) -> bool { forall|k: int| 0 <= k < ss.len() ==> os_up(#[trigger] ss[k], n) }
+proof fn lemma_os_up_intro(s: Statement, n: int)
+    requires s is Blob || s is Enum || s is ExternalDefinition || s is Definition,
+        s_up(s, n), s_shape(s), s is Definition ==> s_nodecl(s),
+        s is Blob ==> fields_tys(s->Blob_fields@, n), s is Enum ==> fields_tys(s->Enum_variants@, n),
+    ensures os_up(s, n),
+{
+    assert forall|m: int| m >= n implies #[trigger] os_ok(s, m) by {
+        assert(s_below(s, m));
+        match s {
+            Statement::Blob { fields, .. } => { assert forall|k: String| #[trigger] fields@.contains_key(k) implies rt_ok(fields@[k].1, m) by { assert(rt_up(fields@[k].1, n)); } }
+            Statement::Enum { variants, .. } => { assert forall|k: String| #[trigger] variants@.contains_key(k) implies rt_ok(variants@[k].1, m) by { assert(rt_up(variants@[k].1, n)); } }
+            _ => {}
+        }
+    }
+}
+
+//@ fn sylt-compiler/src/name_resolution.rs resolve
+//@   props C07 C05 C09
+//@   attr #[verifier::exec_allows_no_decreases_clause]
+//@   attr #[verifier::loop_isolation(false)]
+//@   ret r
+//@   spec
+    requires
+        forall|i: int| 0 <= i < tree.modules@.len() ==> module_ok((#[trigger] tree.modules@[i]).1), //# C07 resolve.pre.every_module_statement_is_a_top_level_statement_with_parser_shape
+    ensures
+        r is Ok ==> forall|k: int| 0 <= k < r->Ok_0.1@.len() ==> os_ok(#[trigger] r->Ok_0.1@[k], r->Ok_0.0@.len() as int), //# C07 resolve.output_is_what_the_type_checker_requires_of_top_level_statements
+        r is Err ==> r->Err_0.len() >= 1, //# C07 resolve.an_error_result_is_never_an_empty_list
+//@   endspec
+//@   loop 1
+//@| for (file_or_lib, module) in tree.modules.iter()
+        invariant resolver.inv(), resolver.stack@.len() == 0, //# C07,C09 resolve.loop1.global_pass_keeps_ids_in_range_and_the_scope_stack_empty
+//@   endloop
+//@   loop 2
+//@| for (file_or_lib, module) in tree.modules.iter()
+        invariant resolver.inv(), resolver.stack@.len() == 0, //# C07,C09 resolve.loop2.import_pass_keeps_ids_in_range_and_the_scope_stack_empty
+//@   endloop
+//@   loop 3 binder itm
+//@| for (_, module) in tree.modules.iter()
+        invariant resolver.inv(), resolver.stack@.len() == 0, //# C07,C09 resolve.loop3.every_module_starts_with_an_empty_scope_stack
+            all_os_up(out@, resolver.variables@.len() as int), //# C07 resolve.loop3.statements_so_far_are_what_the_type_checker_requires
+            itm.seq().len() == tree.modules@.len(), forall|k: int| 0 <= k < tree.modules@.len() ==> *(#[trigger] itm.seq()[k]) == tree.modules@[k], //# - resolve.loop3.aux
+//@   endloop
+//@   loop 4 binder its
+//@| for stmt in module.statements.iter()
+            invariant resolver.inv(), resolver.stack@.len() == 0, //# C07,C09 resolve.loop4.every_top_level_statement_starts_with_an_empty_scope_stack
+                all_os_up(out@, resolver.variables@.len() as int), //# C07 resolve.loop4.statements_so_far_are_what_the_type_checker_requires
+                module_ok(*module), its.seq().len() == module.statements@.len(), forall|k: int| 0 <= k < module.statements@.len() ==> *(#[trigger] its.seq()[k]) == module.statements@[k], //# - resolve.loop4.aux
+//@   endloop
+//@   ghost before
+//@| if let Some(resolved) = resolver.statement(&stmt)? {
+                let ghost n0 = resolver.variables@.len() as int;
+                let ghost out0 = out@;
+//@   endghost
+//@   ghost after
+//@| out.push(resolved);
+                proof {
+                    lemma_os_up_intro(resolved, resolver.variables@.len() as int);
+                    assert forall|k: int| 0 <= k < out@.len() implies os_up(#[trigger] out@[k], resolver.variables@.len() as int) by {
+                        if k < out0.len() { assert(out@[k] == out0[k]); assert(os_up(out0[k], n0)); }
+                    }
+                }
+//@   endghost
+//@   ghost before
+//@| Ok((resolver.variables, out))
+    assert(resolver.global_of(0, "start"@) is Some); //# C05 resolve.an_accepted_program_has_a_start_in_the_main_module
+//@   endghost
+//@ end
 
 } // mod name_resolution
 } // verus!
